@@ -394,25 +394,15 @@ theorem initNamed_category_only (db : Db) (cls : Cls) (c : Sym) (f : Option Rat)
 
 /-! ### equality -/
 
-theorem atomEq_refl : ∀ a : Atom, atomEq a a = true
-  | .none => rfl
-  | .str _ _ => by simp [atomEq]
-  | .num _ _ => by simp [atomEq]
+theorem atomEq_refl (a : Atom) : atomEq a a = true := by
+  cases a <;> simp [atomEq, Atom.numVal]
 
 theorem atomsEq_refl : ∀ l : List Atom, atomsEq l l = true
   | [] => rfl
   | a :: as => by simp [atomsEq, atomEq_refl a, atomsEq_refl as]
 
-theorem atomEq_symm : ∀ a b : Atom, atomEq a b = atomEq b a
-  | .none, .none => rfl
-  | .none, .str _ _ => rfl
-  | .none, .num _ _ => rfl
-  | .str _ _, .none => rfl
-  | .str s _, .str t _ => by simp only [atomEq]; exact BEq.comm
-  | .str _ _, .num _ _ => rfl
-  | .num _ _, .none => rfl
-  | .num _ _, .str _ _ => rfl
-  | .num p _, .num q _ => by simp only [atomEq]; exact BEq.comm
+theorem atomEq_symm (a b : Atom) : atomEq a b = atomEq b a := by
+  cases a <;> cases b <;> simp only [atomEq, Atom.numVal] <;> first | rfl | exact BEq.comm
 
 theorem atomsEq_symm : ∀ l m : List Atom, atomsEq l m = atomsEq m l
   | [], [] => rfl
